@@ -33,6 +33,8 @@ type output struct {
 	Warnings  []string                `json:"warnings,omitempty"`
 	Error     string                  `json:"error,omitempty"`
 	FuncHash  map[string]string       `json:"function_hashes,omitempty"`
+	Dropped   map[string]string       `json:"dropped_harness_files,omitempty"`
+	Missing   map[string]string       `json:"missing_harnesses,omitempty"`
 }
 
 type concreteOut struct {
@@ -162,7 +164,22 @@ func main() {
 		return
 	}
 
+	res.Dropped = droppedFiles
 	for _, n := range names {
+		if mainPkg.Func(n) == nil {
+			if res.Missing == nil {
+				res.Missing = map[string]string{}
+			}
+			why := "no such harness function"
+			for f, e := range droppedFiles {
+				why = "its file " + f + " does not type-check against this tree: " + e
+				if b, err := os.ReadFile(filepath.Join(*hdir, f)); err == nil && strings.Contains(string(b), "func "+n+"()") {
+					break
+				}
+			}
+			res.Missing[n] = why
+			continue
+		}
 		cfg := interp.Config{
 			Workers:         *workers,
 			SolverArgv:      strings.Fields(*solver),
@@ -181,6 +198,9 @@ func main() {
 	emit()
 }
 
+// droppedFiles: harness files excluded because they do not type-check against this tree -> first error.
+var droppedFiles = map[string]string{}
+
 func load(repo, hdir string) (*interp.Shared, *ssa.Package, error) {
 	overlay := map[string][]byte{}
 	entries, err := os.ReadDir(hdir)
@@ -198,30 +218,59 @@ func load(repo, hdir string) (*interp.Shared, *ssa.Package, error) {
 		}
 		overlay[filepath.Join(repo, "zz_verif_"+n)] = b
 	}
-	cfg := &packages.Config{
-		Mode:    packages.LoadAllSyntax,
-		Dir:     repo,
-		Overlay: overlay,
-		Env:     append(os.Environ(), "GOFLAGS=-mod=mod", "GOPROXY=off", "GOSUMDB=off", "GOTOOLCHAIN=local"),
-	}
-	pkgs, err := packages.Load(cfg, ".")
-	if err != nil {
-		return nil, nil, err
-	}
-	if len(pkgs) != 1 {
-		return nil, nil, fmt.Errorf("expected one package, got %d", len(pkgs))
-	}
-	var errs []string
-	packages.Visit(pkgs, nil, func(p *packages.Package) {
-		for _, e := range p.Errors {
-			errs = append(errs, e.Error())
+	// Load, tolerating harness files that no longer type-check against this tree (an anchored
+	// internal identifier was renamed or changed its signature): such files are dropped and
+	// the load is retried, so that the remaining harnesses still run. A type error in the
+	// repository itself, or in the harness API files, is fatal.
+	var pkgs []*packages.Package
+	for round := 0; ; round++ {
+		cfg := &packages.Config{
+			Mode:    packages.LoadAllSyntax,
+			Dir:     repo,
+			Overlay: overlay,
+			Env:     append(os.Environ(), "GOFLAGS=-mod=mod", "GOPROXY=off", "GOSUMDB=off", "GOTOOLCHAIN=local"),
 		}
-	})
-	if len(errs) > 0 {
-		if len(errs) > 10 {
-			errs = errs[:10]
+		var err error
+		pkgs, err = packages.Load(cfg, ".")
+		if err != nil {
+			return nil, nil, err
 		}
-		return nil, nil, fmt.Errorf("package does not type-check with harness: %s", strings.Join(errs, "; "))
+		if len(pkgs) != 1 {
+			return nil, nil, fmt.Errorf("expected one package, got %d", len(pkgs))
+		}
+		var errs []string
+		bad := map[string]string{}
+		fatal := false
+		packages.Visit(pkgs, nil, func(p *packages.Package) {
+			for _, e := range p.Errors {
+				errs = append(errs, e.Error())
+				file := e.Pos
+				if k := strings.Index(file, ":"); k >= 0 {
+					file = file[:k]
+				}
+				base := filepath.Base(file)
+				if _, isHarness := overlay[file]; isHarness && strings.HasPrefix(base, "zz_verif_h_") {
+					if _, seen := bad[file]; !seen {
+						bad[file] = e.Error()
+					}
+				} else {
+					fatal = true
+				}
+			}
+		})
+		if len(errs) == 0 {
+			break
+		}
+		if fatal || len(bad) == 0 || round >= 8 {
+			if len(errs) > 10 {
+				errs = errs[:10]
+			}
+			return nil, nil, fmt.Errorf("package does not type-check with harness: %s", strings.Join(errs, "; "))
+		}
+		for f, why := range bad {
+			delete(overlay, f)
+			droppedFiles[strings.TrimPrefix(filepath.Base(f), "zz_verif_")] = why
+		}
 	}
 	prog, spkgs := ssautil.AllPackages(pkgs, ssa.InstantiateGenerics|ssa.SanityCheckFunctions)
 	prog.Build()
